@@ -14,7 +14,8 @@
 //	defer, func                                          deferred call, function literal
 //	switch                                               a case clause
 //
-// Recorded calls: os.<mutating function>, methods Chmod/Write/Close/Sync/Truncate on a local identifier (file handles,
+// Recorded: `return` statements of Finish directly inside a top-level if (the early exits that delimit its phases);
+// calls: os.<mutating function>, methods Chmod/Write/Close/Sync/Truncate on a local identifier (file handles,
 // the shard builder `ib`), calls of SetTombstone / JsonMarshalRepoMetaTemp, and `b.buildError = ...` assignments.
 // Condition texts are deliberately NOT recorded so that renaming variables or rewording conditions does not change the
 // output; reordering the rename loop and the delete loop, adding a mutation, or dropping an error guard does.
@@ -161,6 +162,15 @@ func walkStmt(fn string, ctx []string, s ast.Stmt) {
 		}
 	case *ast.LabeledStmt:
 		walkStmt(fn, ctx, x.Stmt)
+	case *ast.ReturnStmt:
+		for _, r := range x.Results {
+			walkExpr(fn, ctx, r)
+		}
+		// early exits of Finish directly under a top-level `if`: they delimit the phases (error of phase W, nothing to
+		// install, a rename failed => the toDelete loop is skipped)
+		if fn == "Finish" && len(ctx) == 1 {
+			record(fn, ctx, "return")
+		}
 	default:
 		walkExpr(fn, ctx, s)
 	}
